@@ -1133,7 +1133,7 @@ class Replayer:
                     g.ctrlpoints = [3 * p + 1 for p in g.ctrlpoints]
             except Exception as e:
                 f.append(f"aliasing: mutating a piece raised {type(e).__name__}: {e}")
-            if not self.same_obj(self.project(operand), before):
+            if self.project(operand) != before:
                 f.append("aliasing: mutating a returned piece changed the operand")
         return f
 
@@ -1217,7 +1217,7 @@ def _worker(args):
     return out, [(ev, tag) for ev, tag in val.events], hi - lo
 
 
-def replay_all(records, replayer, on_fail, *, sample=None, limit=None, nproc=None):
+def replay_all(records, replayer, on_fail, *, sample=None, limit=None, nproc=None, path_records=None):
     """Replay every logged transition on a live heap that reached its pre-state through real calls.
 
     records: list of transition dicts.  on_fail(t, fails) is called for each non-conforming one.
@@ -1228,7 +1228,7 @@ def replay_all(records, replayer, on_fail, *, sample=None, limit=None, nproc=Non
 
     if limit is not None:
         records = records[:limit]
-    parent = _paths(records)
+    parent = _paths(path_records if path_records is not None else records)
     nproc = nproc or core.WORKERS
     n = 0
     if len(records) < 200 or nproc <= 1:
